@@ -310,11 +310,17 @@ def task_render(pr, repo):
     for n in ('get_determinant_string', 'get_determinant_for_string', 'get_summary_string'):
         pr.under_contract(repo.func(G + '.' + n))
     for nd in [(0, 0, 0), (2, 0, 1), (1, 3, 2)]:
-        for coupled in (False, True):
+        for coupled in (False, True, 'partner discarded'):
             def thunk(ex, ctx, nd=nd, coupled=coupled):
                 g = mkgroup(repo, 'g', nd, label='ASP  25 A', buried='real', num_volume='real', num_local='real',
                             coupled_titrating_group=None,
-                            non_covalently_coupled_groups=[mkgroup(repo, 'o', (0, 0, 0))] if coupled else [])
+                            non_covalently_coupled_groups=[mkgroup(repo, 'o', (0, 0, 0), coupled_titrating_group=None)] if coupled else [])
+                # the only partner may itself be a group that is discarded from the results (covalently coupled to a third one),
+                # with the default "remove penalised groups" setting: the mark stays - the group still has a coupled partner
+                g.attrs['parameters'] = record('P', None, remove_penalised_group=1)
+                if coupled == 'partner discarded':
+                    g.attrs['non_covalently_coupled_groups'][0].attrs['coupled_titrating_group'] = mkgroup(repo, 'third', (0, 0, 0))
+                coupled = bool(coupled)
                 for t in g.attrs['determinants']:
                     for i, d in enumerate(g.attrs['determinants'][t]):
                         d.attrs['label'] = '%s%d' % (t[:3].upper(), i)
